@@ -14,6 +14,7 @@ Section StackInd.
   Hypothesis hSwap : forall s, P s -> P (Swap s).
   Hypothesis hHttp : forall h sc sk un re s, P s -> P (Http h sc sk un re s).
   Hypothesis hProto : forall h s, P s -> P (Proto h s).
+  Hypothesis hForeign : forall k, P (Foreign k).
 
   Fixpoint stack_ind' (s : stack) : P s :=
     let fix go (l : list stack) : Forall P l :=
@@ -30,6 +31,7 @@ Section StackInd.
     | Swap s' => hSwap s' (stack_ind' s')
     | Http h sc sk un re s' => hHttp h sc sk un re s' (stack_ind' s')
     | Proto h s' => hProto h s' (stack_ind' s')
+    | Foreign k => hForeign k
     end.
 End StackInd.
 
@@ -176,7 +178,7 @@ Section Proofs.
   Proof. reflexivity. Qed.
 
   Definition unverified_shape (i : id) (c : chunk) : Prop :=
-    exists raw cv, c = mkChunk [] raw cv i true.
+    (exists raw cv, c = mkChunk [] raw cv i true) \/ (exists b, c = new_chunk b).
 
   Definition rany (i : id) (r : res chunk) : Prop :=
     match r with Ok c => verified i c \/ unverified_shape i c | Err _ => True end.
@@ -190,7 +192,7 @@ Section Proofs.
   Lemma ncfs_any i raw cv sk : rany i (new_chunk_from_storage i raw cv sk).
   Proof.
     destruct sk.
-    - rewrite from_storage_skip. cbn. right. now exists raw, cv.
+    - rewrite from_storage_skip. cbn. right. left. now exists raw, cv.
     - pose proof (ncfs_good i raw cv) as G. destruct (new_chunk_from_storage i raw cv false); cbn in *; auto.
   Qed.
 
@@ -286,19 +288,29 @@ Section Proofs.
       destruct fl, r; cbn [fst]; try exact I; try apply ncfs_good; try apply IH.
   Qed.
 
+  (* The protocol client checks against the REQUESTED id, whatever label the answer carries. *)
+  Lemma proto_answer_good i j body : rgood i (proto_answer H zdecomp i j body).
+  Proof. apply ncfs_good. Qed.
+
   Lemma proto_get_good h inner i w : rgood i (fst (proto_get h inner i w)).
   Proof.
-    unfold ChunkVerify.proto_get. destruct (inner w) as [[c|[]] w1]; cbn [fst]; try exact I.
-    - destruct (data_of c); cbn [fst]; try exact I.
-      destruct (net h i w1) as [[] w2]; cbn [fst]; try exact I; apply ncfs_good.
-    - destruct (net h i w1) as [[] w2]; cbn [fst]; try exact I; apply ncfs_good.
+    unfold ChunkVerify.proto_get, proto_get_with. destruct (inner w) as [[c|[]] w1]; cbn [fst]; try exact I.
+    - destruct (chunk_data c) as [[b|] c1]; cbn [fst]; try exact I.
+      destruct (net h i w1) as [[] w2]; cbn [fst]; try exact I; apply proto_answer_good.
+    - destruct (net h i w1) as [[] w2]; cbn [fst]; try exact I; apply proto_answer_good.
+  Qed.
+
+  Lemma foreign_get_any k i w : rany i (fst (foreign_get k i w)).
+  Proof.
+    unfold foreign_get. destruct (raw_fetch k i w) as [[b| | |p] w1]; cbn [fst]; try exact I.
+    right. right. now exists b.
   Qed.
 
   (* ---------- the stack ---------- *)
 
   Lemma get_any s i : gany i (get s i).
   Proof.
-    induction s as [l|s l IH|ss IH|f s0 ss IH0 IH|s IH|s IH|h sc sk un re s IH|h s IH] using stack_ind';
+    induction s as [l|s l IH|ss IH|f s0 ss IH0 IH|s IH|s IH|h sc sk un re s IH|h s IH|k] using stack_ind';
       intros w; cbn [ChunkVerify.get].
     - apply wget_any.
     - now apply cache_get_any.
@@ -309,11 +321,12 @@ Section Proofs.
     - apply IH.
     - apply http_loop_any.
     - apply rgood_rany, proto_get_good.
+    - apply foreign_get_any.
   Qed.
 
   Lemma get_good s i : verifying s = true -> ggood i (get s i).
   Proof.
-    induction s as [l|s l IH|ss IH|f s0 ss IH0 IH|s IH|s IH|h sc sk un re s IH|h s IH] using stack_ind';
+    induction s as [l|s l IH|ss IH|f s0 ss IH0 IH|s IH|s IH|h sc sk un re s IH|h s IH|k] using stack_ind';
       intros V w; cbn [ChunkVerify.get verifying] in *.
     - now apply wget_good.
     - apply andb_prop in V as [V1 V2]. apply cache_get_good; auto.
@@ -326,6 +339,7 @@ Section Proofs.
     - apply IH, V.
     - destruct sk; [discriminate|]. apply http_loop_good.
     - apply proto_get_good.
+    - discriminate.
   Qed.
 
   Theorem stack_sound_strong s i w c w' :
@@ -347,7 +361,8 @@ Section Proofs.
   Theorem stack_sound_skip s i w c w' :
     get s i w = (Ok c, w') ->
     (exists b, data_of c = Some b /\ H b = i)
-    \/ (verifying s = false /\ exists raw cv, c = mkChunk [] raw cv i true).
+    \/ (verifying s = false /\
+        ((exists raw cv, c = mkChunk [] raw cv i true) \/ (exists b, c = new_chunk b))).
   Proof.
     intros E. destruct (stack_sound_any s i w c w' E) as [V|U].
     - left. eapply verified_data, V.
@@ -537,9 +552,9 @@ Section Proofs.
 
   Lemma proto_get_ext i h inner : gext i inner -> gext i (proto_get h inner i).
   Proof.
-    intros Ei w. unfold ChunkVerify.proto_get.
+    intros Ei w. unfold ChunkVerify.proto_get, proto_get_with.
     specialize (Ei w). destruct (inner w) as [[c|[]] w1]; cbn [snd] in *; auto.
-    - destruct (data_of c); cbn [snd]; auto.
+    - destruct (chunk_data c) as [[b|] c1]; cbn [snd]; auto.
       pose proof (net_ext i h i w1) as E2. destruct (net h i w1) as [[] w2]; cbn [snd] in *;
         eapply ext_trans; eauto.
     - pose proof (net_ext i h i w1) as E2. destruct (net h i w1) as [[] w2]; cbn [snd] in *;
@@ -548,7 +563,7 @@ Section Proofs.
 
   Lemma all_verifying_verifying s : all_verifying s = true -> verifying s = true.
   Proof.
-    induction s as [l|s l IH|ss IH|f s0 ss IH0 IH|s IH|s IH|h sc sk un re s IH|h s IH] using stack_ind';
+    induction s as [l|s l IH|ss IH|f s0 ss IH0 IH|s IH|s IH|h sc sk un re s IH|h s IH|k] using stack_ind';
       cbn [all_verifying verifying]; intros V; auto.
     - apply andb_prop in V as [V1 V2]. rewrite IH; auto.
     - rewrite forallb_forall in *. rewrite Forall_forall in IH. auto.
@@ -559,7 +574,7 @@ Section Proofs.
 
   Lemma get_ext s i : all_verifying s = true -> gext i (get s i).
   Proof.
-    induction s as [l|s l IH|ss IH|f s0 ss IH0 IH|s IH|s IH|h sc sk un re s IH|h s IH] using stack_ind';
+    induction s as [l|s l IH|ss IH|f s0 ss IH0 IH|s IH|s IH|h sc sk un re s IH|h s IH|k] using stack_ind';
       intros V w; cbn [ChunkVerify.get all_verifying] in *.
     - apply wget_ext.
     - apply andb_prop in V as [V1 V2]. apply cache_get_ext; auto.
@@ -573,6 +588,7 @@ Section Proofs.
     - apply IH, V.
     - apply andb_prop in V as [V1 V2]. apply http_loop_ext; auto.
     - apply proto_get_ext; auto.
+    - discriminate.
   Qed.
 
   Theorem cache_writes_verified s i w r w' :
@@ -726,7 +742,7 @@ Section Proofs.
   Lemma proto_free_no_eof s i w w' : never_eof s = true -> get s i w <> (Err EEof, w').
   Proof.
     revert w w'.
-    induction s as [l|s l IH|ss IH|f s0 ss IH0 IH|s IH|s IH|h sc sk un re s IH|h s IH] using stack_ind';
+    induction s as [l|s l IH|ss IH|f s0 ss IH0 IH|s IH|s IH|h sc sk un re s IH|h s IH|k] using stack_ind';
       intros w w' V; cbn [ChunkVerify.get never_eof] in *.
     - apply wget_no_eof.
     - unfold ChunkVerify.cache_get.
@@ -761,6 +777,7 @@ Section Proofs.
         destruct fl, r; try discriminate; try apply IHn;
         intros X; injection X as X _; eapply ncfs_no_eof; eauto.
     - discriminate.
+    - unfold foreign_get. destruct (raw_fetch k i w) as [[b| | |p] w1]; discriminate.
   Qed.
 
   Lemma copy_pre898d634_eq s nid nd rows w :
@@ -788,4 +805,40 @@ Section Proofs.
     copy_index_pre898d634 H zcomp zdecomp s nid nd (r :: rest) w = ([], true, w1)
     /\ copy_index H zcomp zdecomp s nid nd (r :: rest) w = ([], false, w1).
   Proof. intros E. cbn [copy_index copy_index_pre898d634]. now rewrite E. Qed.
+
+  (* ---------- the id carried in a casync CHUNK answer ---------- *)
+
+  Lemma proto_response_id_ignored i j body c :
+    proto_answer H zdecomp i j body = Ok c -> exists b, data_of c = Some b /\ H b = i.
+  Proof. apply from_storage_verified. Qed.
+
+  (* the client that believes the label checks the data against the label ... *)
+  Lemma proto_respid_checks_label i j body c :
+    proto_answer_respid H zdecomp i j body = Ok c -> exists b, data_of c = Some b /\ H b = j.
+  Proof. apply from_storage_verified. Qed.
+
+  (* ... so in front of a server whose store derives ids from content it returns, without an
+     error, whatever that store holds in the slot of the requested chunk: another chunk's
+     valid object gets through (any [b] with [H b <> i] refutes the property for that client). *)
+  Lemma proto_respid_delivers_foreign k h i w b :
+    w_fault w (w_hist w) (OpGet k i) = NoFault ->
+    w_fault w (w_hist w ++ [OpGet k i]) (OpNet h i) = NoFault ->
+    w_obj w k i = Some b -> nonempty b = true ->
+    nonempty (zcomp b) = true -> zdecomp (zcomp b) = Some b ->
+    exists c, fst (proto_get_with H zcomp zdecomp (proto_answer_respid H zdecomp) h (foreign_get k i) i w) = Ok c
+              /\ data_of c = Some b.
+  Proof.
+    intros F1 F2 Ho Nb Nz Dz. unfold proto_get_with, foreign_get, raw_fetch. rewrite F1, Ho.
+    unfold new_chunk at 1. unfold ChunkVerify.chunk_data at 1. cbn [c_data]. rewrite Nb.
+    unfold net. cbn [w_hist w_fault w_log]. rewrite F2.
+    unfold ChunkVerify.chunk_id at 1. cbn [c_idcalc new_chunk].
+    unfold ChunkVerify.chunk_data at 1. cbn [c_data]. rewrite Nb. cbn [fst].
+    unfold proto_answer_respid, ChunkVerify.new_chunk_from_storage.
+    unfold ChunkVerify.chunk_data at 1. cbn [c_data c_storage c_conv nonempty]. rewrite Nz.
+    cbn [ChunkVerify.from_storage layer_from]. rewrite Dz.
+    unfold ChunkVerify.chunk_id. cbn [set_data c_idcalc].
+    unfold ChunkVerify.chunk_data at 1. cbn [c_data set_data]. rewrite Nb.
+    rewrite N.eqb_refl. eexists. split; [reflexivity|].
+    rewrite data_of_set_id. unfold ChunkVerify.data_of, ChunkVerify.chunk_data. cbn [c_data set_data]. now rewrite Nb.
+  Qed.
 End Proofs.
